@@ -4,7 +4,7 @@ MANIFEST = {
     "text": "PARTIAL (construct FULL for `!` and `?:`; statement shapes for `?`). Lean 4 theorems over M4: for every "
             "callee with n values + error, every argument list and every outcome, the lowered closure of `f(args)!` "
             "(cl/expr.go compileErrWrapExpr: `_gop_ret.., _gop_err = f(args)`, errors.NewFrame, panic) evaluates to "
-            "the values or panics with the callee's error wrapped in a frame (C03_errwrap_bang, C03_bang_unwrap), "
+            "the values or panics with the callee's error wrapped in a frame (C03_errwrap_bang, C03_bang_values_or_panic), "
             "`f(args)?:d` yields the value or d and d is not evaluated on success (C03_errwrap_default, "
             "C03_default_lazy); `f(args)?` in statement, define/assign and argument position (pure operands before "
             "it) equals the documented 'values, or the enclosing function returns zero values + wrapped error' up "
@@ -35,4 +35,4 @@ def run(ctx):
         "M4's Go semantics (Model/MiniGo.lean header) is validated against real Go only on generated programs",
         "errors.NewFrame is observed through Unwrap/Code/Func only",
     ]
-    common.standard(ctx, "GopModel.Props.C03", "c03", 80, 1200, RULE, driver="drv_minigo")
+    common.standard(ctx, "GopModel.Props.C03", "c03", 60, 1200, RULE, driver="drv_minigo")
